@@ -3642,6 +3642,11 @@ namespace detail {
             bool done = false;
             while (p_ < input_end_ && !done)
             {
+                if (state_stack.empty()) // more closing tokens than opening ones
+                {
+                    ec = jmespath_errc::unbalanced_parentheses;
+                    return jmespath_expression{};
+                }
                 switch (state_stack.back())
                 {
                     case expr_state::start: 
@@ -4590,7 +4595,8 @@ namespace detail {
                             case '?':
                             case ':':
                             case '-':case '0':case '1':case '2':case '3':case '4':case '5':case '6':case '7':case '8':case '9':
-                                break;
+                                ec = jmespath_errc::expected_key; // a multi-select hash starts with a key
+                                return jmespath_expression{};
                             default:
                                 state_stack.back() = expr_state::expect_rbrace;
                                 state_stack.push_back(expr_state::key_val_expr);
